@@ -201,8 +201,8 @@ def max_(x, *a, initial=None, **k):
     c = ctx()
     kk = c.fresh_id("max")
     mx = z3.Real(f"max{kk}")
-    c.assume(z3.And(*[mx >= e for e in flat]))
-    c.assume(z3.Or(*[mx == e for e in flat]))
+    c.assume(z3.And(*[mx >= e for e in flat]), why=f"definition of max{kk}")
+    c.assume(z3.Or(*[mx == e for e in flat]), why=f"definition of max{kk}")
     return SymReal(mx)
 
 
